@@ -187,3 +187,294 @@ proof fn lemma_contrib_all(d: DFA, ins: Seq<&Inp>, c: Ustr)
 }
 
 } // verus!
+verus! {
+
+/// the id the literal table gives to (text, description -- or the empty string when there is none)
+spec fn lit_key(idm: Map<(Ustr, Ustr), u32>, lit: Ustr, descr: Option<Ustr>, lid: u32) -> bool {
+    idm.contains_key((lit, descr_or_empty(descr))) && idm[(lit, descr_or_empty(descr))] == lid
+}
+
+/// the interned empty string
+spec fn empty_ustr() -> Ustr { choose|e: Ustr| e@ =~= Seq::<char>::empty() }
+
+spec fn descr_or_empty(descr: Option<Ustr>) -> Ustr {
+    match descr { Some(d) => d, None => empty_ustr() }
+}
+
+proof fn lemma_empty_ustr(e: Ustr)
+    requires e@.len() == 0
+    ensures e == empty_ustr()
+{
+    assert(e@ =~= Seq::<char>::empty());
+    assert(empty_ustr()@ =~= e@);
+    axiom_ustr_interned(e.id, empty_ustr().id);
+}
+
+/// transition tr offers the literal with id lid at level l from state q
+spec fn tr_lit(d: DFA, idm: Map<(Ustr, Ustr), u32>, tr: (u32, InpId, u32), l: int, q: u32, lid: u32) -> bool {
+    tr.0 == q && 0 <= ix_of(tr.1) < d.inputs@.len() && match d.inputs@[ix_of(tr.1)] {
+        Inp::Literal { literal, description, fallback_level } => fallback_level == l && lit_key(idm, literal, description, lid),
+        _ => false,
+    }
+}
+
+spec fn lit_compl(d: DFA, idm: Map<(Ustr, Ustr), u32>, l: int, q: u32, lid: u32) -> bool {
+    exists|id: InpId| #[trigger] used(d, q, id) && tr_lit(d, idm, (q, id, d.transitions@[q][id]), l, q, lid)
+}
+
+spec fn lit_upto(d: DFA, idm: Map<(Ustr, Ustr), u32>, trs: Seq<(u32, InpId, u32)>, n: int, l: int, q: u32, lid: u32) -> bool {
+    exists|m: int| 0 <= m < n && m < trs.len() && #[trigger] tr_lit(d, idm, trs[m], l, q, lid)
+}
+
+/// every literal on a transition is in the table and its level has a slot
+spec fn lits_ready(d: DFA, idm: Map<(Ustr, Ustr), u32>, max: int) -> bool {
+    forall|q: u32, id: InpId| #[trigger] used(d, q, id) ==> 0 <= ix_of(id) < d.inputs@.len() && match d.inputs@[ix_of(id)] {
+        Inp::Literal { literal, description, fallback_level } => fallback_level <= max && (exists|lid: u32| lit_key(idm, literal, description, lid)),
+        _ => true,
+    }
+}
+
+proof fn lemma_lit_step(d: DFA, idm: Map<(Ustr, Ustr), u32>, trs: Seq<(u32, InpId, u32)>, n: int, l: int, q: u32, lid: u32)
+    requires 0 <= n < trs.len()
+    ensures lit_upto(d, idm, trs, n + 1, l, q, lid) == (lit_upto(d, idm, trs, n, l, q, lid) || tr_lit(d, idm, trs[n], l, q, lid))
+{
+    if lit_upto(d, idm, trs, n + 1, l, q, lid) {
+        let m = choose|m: int| 0 <= m < n + 1 && m < trs.len() && #[trigger] tr_lit(d, idm, trs[m], l, q, lid);
+        if m < n { assert(lit_upto(d, idm, trs, n, l, q, lid)); }
+    }
+    if lit_upto(d, idm, trs, n, l, q, lid) {
+        let m = choose|m: int| 0 <= m < n && m < trs.len() && #[trigger] tr_lit(d, idm, trs[m], l, q, lid);
+        assert(lit_upto(d, idm, trs, n + 1, l, q, lid));
+    }
+    if tr_lit(d, idm, trs[n], l, q, lid) { assert(lit_upto(d, idm, trs, n + 1, l, q, lid)); }
+}
+
+proof fn lemma_lit_all(d: DFA, idm: Map<(Ustr, Ustr), u32>, trs: Seq<(u32, InpId, u32)>, l: int, q: u32, lid: u32)
+    requires
+        forall|k: int| 0 <= k < trs.len() ==> used(d, (#[trigger] trs[k]).0, trs[k].1) && d.transitions@[trs[k].0][trs[k].1] == trs[k].2,
+        forall|q2: u32, id: InpId| #[trigger] used(d, q2, id) ==> exists|k: int| 0 <= k < trs.len() && #[trigger] trs[k] == (q2, id, d.transitions@[q2][id]),
+    ensures lit_upto(d, idm, trs, trs.len() as int, l, q, lid) == lit_compl(d, idm, l, q, lid)
+{
+    if lit_upto(d, idm, trs, trs.len() as int, l, q, lid) {
+        let m = choose|m: int| 0 <= m < trs.len() && m < trs.len() && #[trigger] tr_lit(d, idm, trs[m], l, q, lid);
+        assert(used(d, trs[m].0, trs[m].1));
+        assert(trs[m] == (q, trs[m].1, d.transitions@[q][trs[m].1]));
+    }
+    if lit_compl(d, idm, l, q, lid) {
+        let id = choose|id: InpId| #[trigger] used(d, q, id) && tr_lit(d, idm, (q, id, d.transitions@[q][id]), l, q, lid);
+        let k = choose|k: int| 0 <= k < trs.len() && #[trigger] trs[k] == (q, id, d.transitions@[q][id]);
+        assert(tr_lit(d, idm, trs[k], l, q, lid));
+    }
+}
+
+} // verus!
+verus! {
+
+/// cid is the (32-bit) index of cmd in the command table
+spec fn cmd_key(tab: Seq<Ustr>, cmd: Ustr, cid: u32) -> bool {
+    exists|i: int| 0 <= i < tab.len() && #[trigger] tab[i] == cmd && cid == i as u32
+}
+
+spec fn tr_cmd(d: DFA, tab: Seq<Ustr>, tr: (u32, InpId, u32), l: int, q: u32, cid: u32) -> bool {
+    tr.0 == q && 0 <= ix_of(tr.1) < d.inputs@.len() && match d.inputs@[ix_of(tr.1)] {
+        Inp::Command { cmd, fallback_level } => fallback_level == l && cmd_key(tab, cmd, cid),
+        _ => false,
+    }
+}
+
+spec fn cmd_compl(d: DFA, tab: Seq<Ustr>, l: int, q: u32, cid: u32) -> bool {
+    exists|id: InpId| #[trigger] used(d, q, id) && tr_cmd(d, tab, (q, id, d.transitions@[q][id]), l, q, cid)
+}
+
+spec fn cmd_tr_upto(d: DFA, tab: Seq<Ustr>, trs: Seq<(u32, InpId, u32)>, n: int, l: int, q: u32, cid: u32) -> bool {
+    exists|m: int| 0 <= m < n && m < trs.len() && #[trigger] tr_cmd(d, tab, trs[m], l, q, cid)
+}
+
+/// every command on a transition is in the table and its level has a slot
+spec fn cmds_ready(d: DFA, tab: Seq<Ustr>, max: int) -> bool {
+    forall|q: u32, id: InpId| #[trigger] used(d, q, id) ==> 0 <= ix_of(id) < d.inputs@.len() && match d.inputs@[ix_of(id)] {
+        Inp::Command { cmd, fallback_level } => fallback_level <= max && has_key(tab, cmd),
+        _ => true,
+    }
+}
+
+proof fn lemma_cmd_tr_step(d: DFA, tab: Seq<Ustr>, trs: Seq<(u32, InpId, u32)>, n: int, l: int, q: u32, cid: u32)
+    requires 0 <= n < trs.len()
+    ensures cmd_tr_upto(d, tab, trs, n + 1, l, q, cid) == (cmd_tr_upto(d, tab, trs, n, l, q, cid) || tr_cmd(d, tab, trs[n], l, q, cid))
+{
+    if cmd_tr_upto(d, tab, trs, n + 1, l, q, cid) {
+        let m = choose|m: int| 0 <= m < n + 1 && m < trs.len() && #[trigger] tr_cmd(d, tab, trs[m], l, q, cid);
+        if m < n { assert(cmd_tr_upto(d, tab, trs, n, l, q, cid)); }
+    }
+    if cmd_tr_upto(d, tab, trs, n, l, q, cid) {
+        let m = choose|m: int| 0 <= m < n && m < trs.len() && #[trigger] tr_cmd(d, tab, trs[m], l, q, cid);
+        assert(cmd_tr_upto(d, tab, trs, n + 1, l, q, cid));
+    }
+    if tr_cmd(d, tab, trs[n], l, q, cid) { assert(cmd_tr_upto(d, tab, trs, n + 1, l, q, cid)); }
+}
+
+proof fn lemma_cmd_tr_all(d: DFA, tab: Seq<Ustr>, trs: Seq<(u32, InpId, u32)>, l: int, q: u32, cid: u32)
+    requires
+        forall|k: int| 0 <= k < trs.len() ==> used(d, (#[trigger] trs[k]).0, trs[k].1) && d.transitions@[trs[k].0][trs[k].1] == trs[k].2,
+        forall|q2: u32, id: InpId| #[trigger] used(d, q2, id) ==> exists|k: int| 0 <= k < trs.len() && #[trigger] trs[k] == (q2, id, d.transitions@[q2][id]),
+    ensures cmd_tr_upto(d, tab, trs, trs.len() as int, l, q, cid) == cmd_compl(d, tab, l, q, cid)
+{
+    if cmd_tr_upto(d, tab, trs, trs.len() as int, l, q, cid) {
+        let m = choose|m: int| 0 <= m < trs.len() && m < trs.len() && #[trigger] tr_cmd(d, tab, trs[m], l, q, cid);
+        assert(used(d, trs[m].0, trs[m].1));
+        assert(trs[m] == (q, trs[m].1, d.transitions@[q][trs[m].1]));
+    }
+    if cmd_compl(d, tab, l, q, cid) {
+        let id = choose|id: InpId| #[trigger] used(d, q, id) && tr_cmd(d, tab, (q, id, d.transitions@[q][id]), l, q, cid);
+        let k = choose|k: int| 0 <= k < trs.len() && #[trigger] trs[k] == (q, id, d.transitions@[q][id]);
+        assert(tr_cmd(d, tab, trs[k], l, q, cid));
+    }
+}
+
+/// in a table of pairwise different commands the index of a command is unique
+proof fn lemma_cmd_key_unique(tab: Seq<Ustr>, cmd: Ustr, i: int, cid: u32)
+    requires
+        0 <= i < tab.len(), tab[i] == cmd, tab.len() <= u32::MAX,
+        forall|a: int, b: int| 0 <= a < b < tab.len() ==> tab[a] != tab[b],
+    ensures cmd_key(tab, cmd, cid) == (cid == i as u32)
+{
+    if cmd_key(tab, cmd, cid) {
+        let j = choose|j: int| 0 <= j < tab.len() && #[trigger] tab[j] == cmd && cid == j as u32;
+        if j < i { assert(tab[j] != tab[i]); }
+        if i < j { assert(tab[i] != tab[j]); }
+    }
+}
+
+} // verus!
+verus! {
+
+/// the index of cmd in the command table
+spec fn cmd_ix(tab: Seq<Ustr>, cmd: Ustr, cid: usize) -> bool {
+    exists|i: int| 0 <= i < tab.len() && #[trigger] tab[i] == cmd && cid == i
+}
+
+spec fn tr_compadd(d: DFA, tab: Seq<Ustr>, tr: (u32, InpId, u32), l: int, q: u32, cid: usize) -> bool {
+    tr.0 == q && 0 <= ix_of(tr.1) < d.inputs@.len() && match d.inputs@[ix_of(tr.1)] {
+        Inp::Compadd { cmd, fallback_level } => fallback_level == l && cmd_ix(tab, cmd, cid),
+        _ => false,
+    }
+}
+
+spec fn compadd_compl(d: DFA, tab: Seq<Ustr>, l: int, q: u32, cid: usize) -> bool {
+    exists|id: InpId| #[trigger] used(d, q, id) && tr_compadd(d, tab, (q, id, d.transitions@[q][id]), l, q, cid)
+}
+
+spec fn compadd_upto(d: DFA, tab: Seq<Ustr>, trs: Seq<(u32, InpId, u32)>, n: int, l: int, q: u32, cid: usize) -> bool {
+    exists|m: int| 0 <= m < n && m < trs.len() && #[trigger] tr_compadd(d, tab, trs[m], l, q, cid)
+}
+
+spec fn compadds_ready(d: DFA, tab: Seq<Ustr>, max: int) -> bool {
+    forall|q: u32, id: InpId| #[trigger] used(d, q, id) ==> 0 <= ix_of(id) < d.inputs@.len() && match d.inputs@[ix_of(id)] {
+        Inp::Compadd { cmd, fallback_level } => fallback_level <= max && has_key(tab, cmd),
+        _ => true,
+    }
+}
+
+proof fn lemma_compadd_step(d: DFA, tab: Seq<Ustr>, trs: Seq<(u32, InpId, u32)>, n: int, l: int, q: u32, cid: usize)
+    requires 0 <= n < trs.len()
+    ensures compadd_upto(d, tab, trs, n + 1, l, q, cid) == (compadd_upto(d, tab, trs, n, l, q, cid) || tr_compadd(d, tab, trs[n], l, q, cid))
+{
+    if compadd_upto(d, tab, trs, n + 1, l, q, cid) {
+        let m = choose|m: int| 0 <= m < n + 1 && m < trs.len() && #[trigger] tr_compadd(d, tab, trs[m], l, q, cid);
+        if m < n { assert(compadd_upto(d, tab, trs, n, l, q, cid)); }
+    }
+    if compadd_upto(d, tab, trs, n, l, q, cid) {
+        let m = choose|m: int| 0 <= m < n && m < trs.len() && #[trigger] tr_compadd(d, tab, trs[m], l, q, cid);
+        assert(compadd_upto(d, tab, trs, n + 1, l, q, cid));
+    }
+    if tr_compadd(d, tab, trs[n], l, q, cid) { assert(compadd_upto(d, tab, trs, n + 1, l, q, cid)); }
+}
+
+proof fn lemma_compadd_all(d: DFA, tab: Seq<Ustr>, trs: Seq<(u32, InpId, u32)>, l: int, q: u32, cid: usize)
+    requires
+        forall|k: int| 0 <= k < trs.len() ==> used(d, (#[trigger] trs[k]).0, trs[k].1) && d.transitions@[trs[k].0][trs[k].1] == trs[k].2,
+        forall|q2: u32, id: InpId| #[trigger] used(d, q2, id) ==> exists|k: int| 0 <= k < trs.len() && #[trigger] trs[k] == (q2, id, d.transitions@[q2][id]),
+    ensures compadd_upto(d, tab, trs, trs.len() as int, l, q, cid) == compadd_compl(d, tab, l, q, cid)
+{
+    if compadd_upto(d, tab, trs, trs.len() as int, l, q, cid) {
+        let m = choose|m: int| 0 <= m < trs.len() && m < trs.len() && #[trigger] tr_compadd(d, tab, trs[m], l, q, cid);
+        assert(used(d, trs[m].0, trs[m].1));
+        assert(trs[m] == (q, trs[m].1, d.transitions@[q][trs[m].1]));
+    }
+    if compadd_compl(d, tab, l, q, cid) {
+        let id = choose|id: InpId| #[trigger] used(d, q, id) && tr_compadd(d, tab, (q, id, d.transitions@[q][id]), l, q, cid);
+        let k = choose|k: int| 0 <= k < trs.len() && #[trigger] trs[k] == (q, id, d.transitions@[q][id]);
+        assert(tr_compadd(d, tab, trs[k], l, q, cid));
+    }
+}
+
+proof fn lemma_cmd_ix_unique(tab: Seq<Ustr>, cmd: Ustr, i: int, cid: usize)
+    requires
+        0 <= i < tab.len(), tab[i] == cmd,
+        forall|a: int, b: int| 0 <= a < b < tab.len() ==> tab[a] != tab[b],
+    ensures cmd_ix(tab, cmd, cid) == (cid == i)
+{
+    if cmd_ix(tab, cmd, cid) {
+        let j = choose|j: int| 0 <= j < tab.len() && #[trigger] tab[j] == cmd && cid == j;
+        if j < i { assert(tab[j] != tab[i]); }
+        if i < j { assert(tab[i] != tab[j]); }
+    }
+}
+
+// ---- within-word automata per level ----
+spec fn tr_sub(d: DFA, idm: Map<DFAId, usize>, tr: (u32, InpId, u32), l: int, q: u32, sidx: usize) -> bool {
+    tr.0 == q && 0 <= ix_of(tr.1) < d.inputs@.len() && match d.inputs@[ix_of(tr.1)] {
+        Inp::Subword { subdfa, fallback_level } => fallback_level == l && idm.contains_key(subdfa) && idm[subdfa] == sidx,
+        _ => false,
+    }
+}
+
+spec fn sub_compl(d: DFA, idm: Map<DFAId, usize>, l: int, q: u32, sidx: usize) -> bool {
+    exists|id: InpId| #[trigger] used(d, q, id) && tr_sub(d, idm, (q, id, d.transitions@[q][id]), l, q, sidx)
+}
+
+spec fn sub_upto(d: DFA, idm: Map<DFAId, usize>, trs: Seq<(u32, InpId, u32)>, n: int, l: int, q: u32, sidx: usize) -> bool {
+    exists|m: int| 0 <= m < n && m < trs.len() && #[trigger] tr_sub(d, idm, trs[m], l, q, sidx)
+}
+
+spec fn subs_ready(d: DFA, idm: Map<DFAId, usize>, max: int) -> bool {
+    forall|q: u32, id: InpId| #[trigger] used(d, q, id) ==> 0 <= ix_of(id) < d.inputs@.len() && match d.inputs@[ix_of(id)] {
+        Inp::Subword { subdfa, fallback_level } => fallback_level <= max && idm.contains_key(subdfa),
+        _ => true,
+    }
+}
+
+proof fn lemma_sub_step(d: DFA, idm: Map<DFAId, usize>, trs: Seq<(u32, InpId, u32)>, n: int, l: int, q: u32, sidx: usize)
+    requires 0 <= n < trs.len()
+    ensures sub_upto(d, idm, trs, n + 1, l, q, sidx) == (sub_upto(d, idm, trs, n, l, q, sidx) || tr_sub(d, idm, trs[n], l, q, sidx))
+{
+    if sub_upto(d, idm, trs, n + 1, l, q, sidx) {
+        let m = choose|m: int| 0 <= m < n + 1 && m < trs.len() && #[trigger] tr_sub(d, idm, trs[m], l, q, sidx);
+        if m < n { assert(sub_upto(d, idm, trs, n, l, q, sidx)); }
+    }
+    if sub_upto(d, idm, trs, n, l, q, sidx) {
+        let m = choose|m: int| 0 <= m < n && m < trs.len() && #[trigger] tr_sub(d, idm, trs[m], l, q, sidx);
+        assert(sub_upto(d, idm, trs, n + 1, l, q, sidx));
+    }
+    if tr_sub(d, idm, trs[n], l, q, sidx) { assert(sub_upto(d, idm, trs, n + 1, l, q, sidx)); }
+}
+
+proof fn lemma_sub_all(d: DFA, idm: Map<DFAId, usize>, trs: Seq<(u32, InpId, u32)>, l: int, q: u32, sidx: usize)
+    requires
+        forall|k: int| 0 <= k < trs.len() ==> used(d, (#[trigger] trs[k]).0, trs[k].1) && d.transitions@[trs[k].0][trs[k].1] == trs[k].2,
+        forall|q2: u32, id: InpId| #[trigger] used(d, q2, id) ==> exists|k: int| 0 <= k < trs.len() && #[trigger] trs[k] == (q2, id, d.transitions@[q2][id]),
+    ensures sub_upto(d, idm, trs, trs.len() as int, l, q, sidx) == sub_compl(d, idm, l, q, sidx)
+{
+    if sub_upto(d, idm, trs, trs.len() as int, l, q, sidx) {
+        let m = choose|m: int| 0 <= m < trs.len() && m < trs.len() && #[trigger] tr_sub(d, idm, trs[m], l, q, sidx);
+        assert(used(d, trs[m].0, trs[m].1));
+        assert(trs[m] == (q, trs[m].1, d.transitions@[q][trs[m].1]));
+    }
+    if sub_compl(d, idm, l, q, sidx) {
+        let id = choose|id: InpId| #[trigger] used(d, q, id) && tr_sub(d, idm, (q, id, d.transitions@[q][id]), l, q, sidx);
+        let k = choose|k: int| 0 <= k < trs.len() && #[trigger] trs[k] == (q, id, d.transitions@[q][id]);
+        assert(tr_sub(d, idm, trs[k], l, q, sidx));
+    }
+}
+
+} // verus!
